@@ -70,10 +70,11 @@ Theorem C17_export_idempotent : forall f, export_fib (export_fib f) = export_fib
 Proof. exact export_fib_idem. Qed.
 Print Assumptions C17_export_idempotent.
 
-(* the span loss handed to the amplifier design equals the loss of the padded span, and the redesign of the padded
+(* the span loss handed to the amplifier design equals the loss of the padded span (minus the estimated gain of its
+   Raman fibres, an input: c_rg), and the redesign of the padded
    span is handed the same value (gnpy fix 13a35c31 for finding F20; witness kept in corpus/C17/f20_att_in.json) *)
-Theorem C17_span_loss_cache : forall c r r', pad_run c r = Ok r' -> last_plain_fib r = true -> has_raman r = false ->
-  (run_dsl c r == run_loss r')%Q.
+Theorem C17_span_loss_cache : forall c r r', pad_run c r = Ok r' -> last_plain_fib r = true ->
+  (run_dsl c r == span_sl c r')%Q.
 Proof. exact run_dsl_spec. Qed.
 Print Assumptions C17_span_loss_cache.
 Theorem C17_span_loss_cache_stable : forall c r r', pad_run c r = Ok r' -> (run_dsl c r' == run_dsl c r)%Q.
